@@ -149,7 +149,11 @@ fn run_call(task: usize, k: usize, call: &Call) -> CallOut {
             }
         }
         _ => {
-            let o = perform(&call.op);
+            let o = {
+                // allocation-point preemption is on only while the call's library code runs
+                let _gate = crate::threads::gate_open_for_call();
+                perform(&call.op)
+            };
             if seams::in_shuttle() {
                 // shadow guards a caught panic left behind (unwinding is atomic)
                 seams::flush_held(task);
@@ -394,7 +398,7 @@ fn run_threads(plan: &Plan, out: &mut Outcome) -> (Vec<Vec<CallOut>>, Vec<CallOu
         plan.threads.iter().map(|c| vec![None; c.len()]).collect(),
     ));
     seams::set_mode(seams::Mode::Threads);
-    threads::start(&plan.sched, plan.threads.len());
+    threads::start(&plan.sched, plan.threads.len(), plan.alloc_yield_mean as u64);
     let mut handles = Vec::new();
     for (t, calls) in plan.threads.iter().enumerate() {
         let calls = calls.clone();
